@@ -533,6 +533,8 @@ def binop(ex, op, l, r, inplace=False):
     if isinstance(op, ast.Mult):
         if isinstance(l, int) and not isinstance(r, int):
             l, r = r, l
+        if isinstance(l, SInt) and isinstance(r, SBytes):
+            l, r = r, l
         if isinstance(l, SBytes):
             if isinstance(r, int):
                 if l.conc is not None:
